@@ -319,6 +319,61 @@ def rust_files():
     return sorted(res)
 
 
+# ---------------------------------------------------------------- (e) state space of the code = state space of the model
+
+# The Lean model is a family of pure functions over `Arr {elems, shape}`.  That the code lives in the same fragment is read
+# from the source on every run: no global / thread-local / interior-mutable state, no ambient input (clock, environment,
+# addresses), randomness only in the `rand()` constructors, and `Array` has exactly the two modelled fields.
+STATE_TOKENS = [
+    (r"\bstatic\s+mut\b", "static mut"),
+    (r"\bthread_local\s*!", "thread_local!"),
+    (r"\blazy_static\s*!", "lazy_static!"),
+    (r"\b(UnsafeCell|RefCell|Cell|OnceCell|OnceLock|LazyLock|LazyCell|Mutex|RwLock|Condvar|Atomic(?:Bool|Ptr|Usize|Isize|U8|U16|U32|U64|I8|I16|I32|I64))\b", "interior-mutable / shared state type"),
+    (r"\bstd\s*::\s*(env|time|fs|process|thread|net|io|sync|cell)\b", "ambient input / shared state module"),
+    (r"\b(Instant|SystemTime)\b", "clock"),
+    (r"\b(as_ptr|as_mut_ptr|addr_of|type_name|TypeId)\b|\*\s*const\b|\*\s*mut\b", "address / type identity"),
+    (r"\b(size_of|size_of_val|align_of|align_of_val|transmute|downcast_ref|downcast_mut|type_id)\b|\bdyn\s+Any\b", "element layout / dynamic type (breaks parametricity in T)"),
+    (r"\bunsafe\b", "unsafe"),
+]
+RAND_FILES = {"src/boolean/types/mod.rs", "src/numeric/types/numeric.rs"}
+ARRAY_FIELDS = [("elements", "Vec<T>"), ("shape", "Vec<usize>")]
+
+
+def strip_strings(src):
+    """comments already removed: blank out string literals (their contents are data, not code)"""
+    return re.sub(r'"(?:\\.|[^"\\])*"', '""', src)
+
+
+def state_space_report():
+    """list of (file, line, what) where the source leaves the stateless fragment the model covers"""
+    bad = []
+    array_seen = False
+    for path in rust_files():
+        rel = os.path.relpath(path, REPO)
+        raw = open(path, encoding="utf-8").read()
+        # keep line numbers: strip comments line-wise friendly by replacing with blanks of equal newlines
+        code = strip_strings(strip_comments(raw))
+        def lineno(pos, code=code, raw=raw):
+            frag = code[max(0, pos - 40):pos + 40].strip().split("\n")[0]
+            return frag[:70]
+        code_no_forbid = re.sub(r"#!\[forbid\(unsafe_code\)\]", "", code)
+        for rx, what in STATE_TOKENS:
+            for m in re.finditer(rx, code_no_forbid):
+                bad.append((rel, what, m.group(0)))
+        if rel not in RAND_FILES and re.search(r"\brand\s*::|\bthread_rng\b|\bRng\b", code):
+            bad.append((rel, "randomness outside the rand() constructors", "rand"))
+        m = re.search(r"\bstruct\s+Array\s*<[^{;]*\{([^}]*)\}", code)
+        if m:
+            array_seen = True
+            fields = [(a, norm(b)) for a, b in re.findall(r"(?:pub\s*(?:\([^)]*\))?\s*)?(\w+)\s*:\s*([^,}]+)", m.group(1))]
+            want = [(a, norm(b)) for a, b in ARRAY_FIELDS]
+            if fields != want:
+                bad.append((rel, "struct Array no longer has exactly the modelled fields elements: Vec<T>, shape: Vec<usize>", str(fields)))
+    if not array_seen:
+        bad.append(("src", "struct Array<T> not found", ""))
+    return bad
+
+
 def inventory_and_impls():
     methods, impls, sigs = [], [], {}
     for p in rust_files():
